@@ -309,6 +309,19 @@ func c09Body(r *Run) {
 		}
 	})
 
+	if nH > 0 && t.Chance(1, 4) {
+		// an application registers a handler under a name that is taken, and recovers from the DuplicateHandlerNameError
+		// panic: the rejected call changes nothing for the handler that owns the name
+		dup := hs[t.Int(nH)]
+		pv, pan := Call(func() {
+			rig.Router.AddNoPublisherHandler(dup.name, "in-duplicate", NewScriptedSubscriber(r, "dup-sub"), func(m *message.Message) error { return nil })
+		})
+		if _, ok := pv.(message.DuplicateHandlerNameError); pan && ok {
+			r.Fault("rejected-duplicate-registration")
+		} else {
+			r.Probe("duplicate-registration-not-rejected-with-DuplicateHandlerNameError")
+		}
+	}
 	rig.Start()
 	// in some runs the late handlers are registered side by side, one goroutine per handler (each handler's own
 	// middlewares keep their order; the router-level ones were all registered before Run): whatever order the calls
